@@ -67,15 +67,15 @@ def tie(ctx):
     wit = os.path.join(ctx.rundir, "mpsc3b_witnesses.case")
     open(wit, "w").write("".join(open(w).read() for w in WITNESSES if os.path.exists(w)))
     ts.append(ctx.tie("mpsc3b-witnesses", _cmd(h, "run", wit, "--atomics"), [drv]))
-    n = 1500 if ctx.quick else 40000
+    n = 1500 if ctx.quick else 10000
     cases = os.path.join(ctx.rundir, "mpsc3b_gen.case")
     mpsc3b_gen.write_cases(cases, ctx.seed, n)
     ts.append(ctx.tie("mpsc3b-atomics-random", _cmd(h, "run", cases, "--atomics"), [drv], timeout=3000))
     longc = os.path.join(ctx.rundir, "mpsc3b_long.case")
-    _long_cases(longc, ctx.seed, 40 if ctx.quick else 600)
+    _long_cases(longc, ctx.seed, 40 if ctx.quick else 150)
     ts.append(ctx.tie("mpsc3b-atomics-recycling", _cmd(h, "run", longc, "--atomics"), [drv], timeout=3000))
     ts.append(ctx.tie("mpsc3b-atomics-chanh-gen",
-                      _cmd(h, "gen", "--seed", str(ctx.seed), "--cases", "300" if ctx.quick else "6000", "--mode", "conc",
+                      _cmd(h, "gen", "--seed", str(ctx.seed), "--cases", "300" if ctx.quick else "1500", "--mode", "conc",
                            "--flavours", "mpsc_b,mpsc_b_async", "--atomics"), [drv], timeout=3000))
     return ts
 
